@@ -381,6 +381,9 @@ def legacy_checks():
     return _legacy_run(variants, rec)
 
 
+_LEGACY_RECORDS = {}
+
+
 def _legacy_build():
     path = os.path.join(treeenv.FIXTURES, "sampler.sunsynth")
     data = open(path, "rb").read()
@@ -402,6 +405,21 @@ def _legacy_build():
     alt = list(chunks)
     alt[rec_i] = (b"CHDT", rec[:0xFC] + b"XXXX" + rec[0x100:])
     variants["signature-altered"] = codec.build_chunks(alt)
+    # pre-envelope records with DIFFERENT numbers of active volume and panning points (and distinct point values)
+    from struct import pack_into
+
+    ri_out = next(i for i, (cid, d) in enumerate(out) if cid == b"CHDT" and len(d) >= 0x100 and d[0xFC:0x100] == b"PMAS")
+    for kv, kp in ((2, 5), (5, 2), (0, 3), (3, 0), (12, 1), (1, 12), (12, 12)):
+        r2 = bytearray(rec)
+        for i in range(12):
+            pack_into("<HH", r2, 0x84 + 4 * i, 3 * i + 1, (i * 7 + 2) % 65)
+            pack_into("<HH", r2, 0xB4 + 4 * i, 5 * i + 2, (i * 11 + 3) % 65)
+        r2[0xE4], r2[0xE5] = kv, kp
+        o3 = list(out)
+        o3[ri_out] = (b"CHDT", bytes(r2))
+        name = f"no-envelope-chunks:vol{kv}-pan{kp}"
+        variants[name] = codec.build_chunks(o3)
+        _LEGACY_RECORDS[name] = bytes(r2)
     out2 = [c for c in out]
     ri2 = next(i for i, (cid, d) in enumerate(out2) if cid == b"CHDT" and len(d) >= 0x100 and d[0xFC:0x100] == b"PMAS")
     out2[ri2] = (b"CHDT", rec[:0xFC] + b"XXXX" + rec[0x100:])
@@ -424,7 +442,7 @@ def _legacy_run(variants, rec):
         s1 = S.snapshot(o1)
         if "no-envelope" in name:
             for which, attr in (("volume", "volume_envelope"), ("panning", "panning_envelope")):
-                ref = legacy_reference(rec, which)
+                ref = legacy_reference(_LEGACY_RECORDS.get(name, rec), which)
                 got = [[a, b] for a, b in getattr(o1.module, attr).points]
                 if got != ref:
                     vs.append(C.viol("legacy-envelope-conversion", dict(key, envelope=which), {"expected": ref, "observed": got}, case))
